@@ -8,16 +8,24 @@ itself relates two pyLife outputs (signed vs. unsigned, accessor vs. function, M
 Floating point tolerances (eps = 2**-52, scale = largest |component| / |principal stress| of the tensor):
   * eigenvalue based measures: 64 eps scale.  LAPACK's symmetric eigen solver is backward stable (error a small
     multiple of eps ||S||), the harness' own R D R^T carries about 8 eps scale.
-  * von Mises: the value is the square root of a quadratic form; rounding perturbs the *radicand* by a small
-    multiple of eps scale^2 however it is evaluated from the six components, hence
-        |mises - ref| <= K eps scale^2 / max(ref, sqrt(K eps) scale),  K = 128
-    i.e. sqrt(K eps) scale = 1.7e-7 scale for a (nearly) hydrostatic tensor and K eps scale^2 / ref otherwise.
+  * von Mises, two oracles:
+    (i) against the EXACT value of the definition for the very components that are passed (rational arithmetic on the
+        doubles / ints, fractions.Fraction): 16 eps relative.  A correct double evaluation of the definition
+        sqrt(((s11-s22)^2 + (s22-s33)^2 + (s33-s11)^2)/2 + 3 (s12^2+s13^2+s23^2)) delivers that: a floating point
+        subtraction has a RELATIVE error <= eps/2 however close the operands are, squares and sums of non-negative
+        terms add ~1.5 eps, the root halves it (about 2.5 eps in all).  There is no cancellation in the definition;
+        only a reformulation (expanded polynomial, invariants I1^2 - 3 I2) introduces one, losing eps (p/dev)^2.
+    (ii) against the principal stresses the tensor was built from: the Mises stress is a norm of the deviator, hence
+        1-Lipschitz in the components (|m(S) - m(S')| <= sqrt(3/2) |S - S'|); the harness' R D R^T is off by ~8 eps scale,
+        so |mises - ref| <= 128 eps scale absolutely - also for (nearly) hydrostatic tensors.
+    (Until the fix of F08 the expanded polynomial was admitted with sqrt(eps) scale near hydrostatic states.)
   * sign of a signed variant is asserted when its indicator (trace, l_max + l_min) is clear of zero by 1e-10 scale,
     or when it is *exactly* zero by construction (diagonal tensors whose entries sum to zero exactly): then +1.
 """
 
 import itertools
 import math
+from fractions import Fraction
 
 import numpy as np
 import pandas as pd
@@ -120,7 +128,18 @@ def ref_measures(eig):
 
 
 def mises_tol(ref, scale):
-    return K_MISES * EPS * scale * scale / max(ref, math.sqrt(K_MISES * EPS) * scale) if scale > 0 else 0.0
+    """Oracle (ii): Lipschitz bound for tensors whose components carry the harness' own ~8 eps scale."""
+    return 2.0 * K_EIG * EPS * scale
+
+
+def mises_exact(c):
+    """Oracle (i): the definition evaluated exactly (rationals) for the given components, rounded once."""
+    f = [Fraction(x) for x in c]
+    rad = ((f[0] - f[1]) ** 2 + (f[1] - f[2]) ** 2 + (f[2] - f[0]) ** 2) / 2 + 3 * (f[3] ** 2 + f[4] ** 2 + f[5] ** 2)
+    return math.sqrt(float(rad))
+
+
+RT_MISES = 16 * EPS
 
 
 def near_hydrostatic(eig, scale):
@@ -212,6 +231,12 @@ def check_against_truth(comps, eigs, exact_zero, container, ctx, what, exact_tra
             if abs(g[name] - ref[name]) > tol:
                 raise Violation("%s%r = %r, definition gives %r (principal stresses %r, tol %.3g)" % (name, tuple(c), g[name], ref[name], sorted(eig), tol),
                                 bucket="def:%s" % name)
+        if not skip_mises:
+            mx = mises_exact(c)
+            if abs(g["mises"] - mx) > RT_MISES * mx:
+                raise Violation("mises%r = %r, the definition evaluated exactly for these components gives %r (relative deviation %.3g, "
+                                "hydrostatic/deviatoric ratio %.3g)" % (tuple(c), g["mises"], mx, abs(g["mises"] - mx) / mx if mx else float("inf"),
+                                                                       abs(ref["trace"]) / 3 / mx if mx else float("inf")), bucket="def:mises_exact")
         if not skip_mises and abs(g["mises"] - ref["mises"]) > t_m:
             raise Violation("mises%r = %r, principal differences give %r (principal stresses %r, tol %.3g)" % (tuple(c), g["mises"], ref["mises"], sorted(eig), t_m),
                             bucket="def:mises")
@@ -269,7 +294,7 @@ def _unit():
 @st.composite
 def _eigs(draw):
     cls = draw(st.sampled_from(["general"] * 5 + ["uniaxial", "pure_shear", "repeated", "biaxial", "sym_tie", "near_sym_tie"] * 3 +
-                               ["hydrostatic", "near_hydrostatic", "zero"]))
+                               ["hydrostatic", "near_hydrostatic", "zero"] + ["pressure_plus_deviator"] * 3))
     k = draw(st.integers(0, 3))
     if k == 0:
         scale = 10.0 ** draw(st.integers(-12, 9))        # "every positive factor": Pa ... TPa, far from over/underflow of squares
@@ -293,6 +318,11 @@ def _eigs(draw):
         p = nz()
         d = 10.0 ** draw(st.integers(-14, -5))
         e = [p, p * (1 + d * u()), p * (1 + d * u())]
+    elif cls == "pressure_plus_deviator":
+        # a large hydrostatic part (superimposed pressure) with a deviator 1e3 .. 1e7 times smaller
+        p = nz()
+        d = abs(p) * 10.0 ** draw(st.floats(-7.0, -3.0))
+        e = [p + d * u(), p + d * u(), p + d * u()]
     elif cls == "repeated":
         a, b = nz(), u()
         e = [a, a, b]
@@ -418,6 +448,12 @@ def rotation_scale(case, ctx):
         else:
             raise Violation("%s not finite for finite tensor %r / rotated %r / scaled by %r" % (sorted(set(nonfinite)), c0, c1, a),
                             bucket="nonfinite:%s" % sorted(set(nonfinite))[0])
+    if not skip_mises:
+        for what, comp, d in (("S", c0, base), ("R S R^T", c1, rot), ("a S", c2, scl)):
+            mx = mises_exact(comp)
+            if abs(d["mises"] - mx) > RT_MISES * mx:
+                raise Violation("mises(%s) = %r for components %r, the definition evaluated exactly gives %r (relative deviation %.3g)" % (
+                    what, d["mises"], comp, mx, abs(d["mises"] - mx) / mx if mx else float("inf")), bucket="def:mises_exact")
     tr = c0[0] + c0[1] + c0[2]
     lo, hi = base["min_principal"], base["max_principal"]     # used only to decide whether the indicator is clear of zero
     for n in FUNCS:
@@ -482,7 +518,7 @@ def _whole_numbers(lo, hi):
 @st.composite
 def _component_cases(draw, tier):
     pattern = draw(st.sampled_from(["int_full", "int_full", "int_small", "quarters", "shear_cancel", "shear_cancel", "plane", "shear_only",
-                                    "near_diagonal"]))
+                                    "near_diagonal", "pressure_offset", "pressure_offset"]))
     n = draw(st.integers(1, 4 if tier == "quick" else 12))
     rows = []
     for _ in range(n):
@@ -492,6 +528,12 @@ def _component_cases(draw, tier):
                 c = [x / 8.0 for x in c]                  # not whole, still exact
         elif pattern == "int_small":
             c = [draw(st.integers(-3, 3)) for _ in range(6)]
+        elif pattern == "pressure_offset":
+            # p I + a small deviator: a part under a superimposed pressure, p/dev = 1e3 .. 1e7, whole numbers or eighths
+            p0 = draw(st.sampled_from([1, -1])) * draw(st.integers(1, 9)) * 10 ** draw(st.integers(4, 7))
+            c = [p0 + draw(st.integers(-10, 10)) for _ in range(3)] + [draw(st.integers(-10, 10)) for _ in range(3)]
+            if draw(st.booleans()):
+                c = [x / 8.0 for x in c]
         elif pattern == "quarters":
             c = [draw(st.integers(-16, 16)) / 4.0 for _ in range(6)]
         else:                                             # shear far below the diagonal
